@@ -456,3 +456,240 @@ Proof.
   split; [split; assumption|].
   apply inv_all_out_empty; [exact I4|]. rewrite E4. intros [|[|t]] x Hx; cbn in Hx; inversion Hx; reflexivity.
 Qed.
+
+(* ================================================================== *)
+(* 7. observation table = live observations                            *)
+
+Definition idof (x : Z * O.obs) : nat := O.o_id (snd x).
+
+Lemma in_otdel k : forall t k' o, In (k', o) (O.tdel k t) <-> In (k', o) t /\ k' <> k.
+Proof.
+  induction t as [|[k0 o0] r IH]; intros k' o; cbn [O.tdel]; [cbn; tauto|].
+  destruct (k0 =? k) eqn:E.
+  - apply Z.eqb_eq in E. subst k0. rewrite IH. cbn [In]. split.
+    + intros [H1 H2]. split; auto.
+    + intros [[H|H] H2]; [inversion H; subst; congruence|split; auto].
+  - apply Z.eqb_neq in E. cbn [In]. rewrite IH. split.
+    + intros [H|[H1 H2]]; [inversion H; subst; split; auto|split; auto].
+    + intros [[H|H] H2]; [left; exact H|right; split; auto].
+Qed.
+
+Lemma nodup_map_otdel {A} (f : Z * O.obs -> A) k : forall t, NoDup (map f t) -> NoDup (map f (O.tdel k t)).
+Proof.
+  induction t as [|[k0 o0] r IH]; intros H; cbn [O.tdel]; [exact H|].
+  cbn [map] in H. inversion H as [|? ? Hn Hr]; subst. destruct (k0 =? k); [apply IH; exact Hr|].
+  cbn [map]. constructor; [|apply IH; exact Hr].
+  intros Hin. apply Hn. apply in_map_iff in Hin. destruct Hin as ([k1 o1] & Hf & Hi). apply in_otdel in Hi.
+  apply in_map_iff. exists (k1, o1). split; [exact Hf|apply Hi].
+Qed.
+
+Lemma otget_in k : forall t o, O.tget k t = Some o -> In (k, o) t.
+Proof.
+  induction t as [|[k0 o0] r IH]; intros o H; cbn [O.tget] in H; [discriminate|].
+  destruct (k0 =? k) eqn:E; [apply Z.eqb_eq in E; inversion H; subst; left; reflexivity|right; apply IH; exact H].
+Qed.
+
+Lemma otget_none k : forall t, O.tget k t = None -> forall o, ~ In (k, o) t.
+Proof.
+  induction t as [|[k0 o0] r IH]; intros H o Hin; cbn [O.tget] in H; [contradiction|].
+  destruct (k0 =? k) eqn:E; [discriminate|]. destruct Hin as [Heq|Hin]; [inversion Heq; subst; rewrite Z.eqb_refl in E; discriminate|].
+  exact (IH H o Hin).
+Qed.
+
+Lemma nodup_fst_unique (t : list (Z * O.obs)) : NoDup (map fst t) -> forall k o1 o2, In (k, o1) t -> In (k, o2) t -> o1 = o2.
+Proof.
+  induction t as [|[k0 o0] r IH]; intros H k o1 o2 H1 H2; [contradiction|].
+  cbn [map fst] in H. inversion H as [|? ? Hn Hr]; subst.
+  destruct H1 as [E1|H1]; destruct H2 as [E2|H2].
+  - congruence.
+  - inversion E1; subst. exfalso. apply Hn. apply in_map_iff. exists (k, o2). auto.
+  - inversion E2; subst. exfalso. apply Hn. apply in_map_iff. exists (k, o1). auto.
+  - eapply IH; eauto.
+Qed.
+
+Lemma nodup_id_unique (t : list (Z * O.obs)) : NoDup (map idof t) -> forall x y, In x t -> In y t -> idof x = idof y -> x = y.
+Proof.
+  induction t as [|a r IH]; intros H x y Hx Hy E; [contradiction|].
+  cbn [map] in H. inversion H as [|? ? Hn Hr]; subst.
+  destruct Hx as [<-|Hx]; destruct Hy as [<-|Hy]; auto.
+  - exfalso. apply Hn. rewrite E. apply in_map. exact Hy.
+  - exfalso. apply Hn. rewrite <- E. apply in_map. exact Hx.
+Qed.
+
+Lemma in_remove_nat x l y : In y (remove_nat x l) <-> In y l /\ y <> x.
+Proof.
+  unfold remove_nat. rewrite filter_In. split; intros [H1 H2]; split; auto.
+  - apply negb_true_iff in H2. apply Nat.eqb_neq in H2. exact H2.
+  - apply negb_true_iff. apply Nat.eqb_neq. exact H2.
+Qed.
+
+Lemma remove_nat_notin x l : ~ In x l -> remove_nat x l = l.
+Proof.
+  unfold remove_nat. induction l as [|a r IH]; intros H; cbn [filter]; [reflexivity|].
+  destruct (Nat.eqb a x) eqn:E; cbn [negb].
+  - apply Nat.eqb_eq in E. subst. exfalso. apply H. left. reflexivity.
+  - rewrite IH; [reflexivity|]. intros Hin. apply H. right. exact Hin.
+Qed.
+
+Lemma nodup_remove_nat x l : NoDup l -> NoDup (remove_nat x l).
+Proof. intros H. unfold remove_nat. apply NoDup_filter. exact H. Qed.
+
+Record OInv (s : O.st) (lv : list nat) : Prop := {
+  oi_keys : NoDup (map fst (O.tbl s));
+  oi_ent : forall k o, In (k, o) (O.tbl s) -> O.crc64 (O.o_tok o) = k /\ (O.o_id o < length (O.regs s))%nat;
+  oi_ids : NoDup (map idof (O.tbl s));
+  oi_lv : NoDup lv;
+  oi_live : forall id, In id lv <-> exists k o, In (k, o) (O.tbl s) /\ O.o_id o = id /\ O.o_wait o = false
+}.
+
+Lemma oinv0 : OInv O.st0 [].
+Proof.
+  constructor; cbn [O.st0 O.tbl O.regs map].
+  - constructor.
+  - intros k o [].
+  - constructor.
+  - constructor.
+  - intros id. split; [intros [] | intros (k & o & [] & _)].
+Qed.
+
+(* deleting the entry (k, o0) and forgetting its id *)
+Lemma oinv_delete s lv k o0 rs : OInv s lv -> O.tget k (O.tbl s) = Some o0 -> (length (O.regs s) <= length rs)%nat ->
+  OInv (O.mkSt (O.tdel k (O.tbl s)) rs) (remove_nat (O.o_id o0) lv).
+Proof.
+  intros I Hg Hlen. pose proof (otget_in _ _ _ Hg) as Hin0. constructor; cbn [O.tbl O.regs].
+  - apply nodup_map_otdel. apply (oi_keys _ _ I).
+  - intros k1 o1 H. apply in_otdel in H. destruct (oi_ent _ _ I k1 o1 (proj1 H)). split; [assumption|lia].
+  - apply nodup_map_otdel. apply (oi_ids _ _ I).
+  - apply nodup_remove_nat. apply (oi_lv _ _ I).
+  - intros id. rewrite in_remove_nat. rewrite (oi_live _ _ I id). split.
+    + intros [(k1 & o1 & Hin & Hid & Hw) Hne]. exists k1, o1. repeat split; auto. apply in_otdel. split; [exact Hin|].
+      intros ->. pose proof (nodup_fst_unique _ (oi_keys _ _ I) k o1 o0 Hin Hin0). subst. congruence.
+    + intros (k1 & o1 & Hin & Hid & Hw). apply in_otdel in Hin. destruct Hin as [Hin Hk]. split; [exists k1, o1; auto|].
+      intros E. subst id. assert ((k1, o1) = (k, o0)) as EE by (apply (nodup_id_unique _ (oi_ids _ _ I)); auto).
+      inversion EE. congruence.
+Qed.
+
+(* replacing the entry at k by one with the same id and token *)
+Lemma oinv_replace s lv k o0 o2 lv' : OInv s lv -> O.tget k (O.tbl s) = Some o0 ->
+  O.o_id o2 = O.o_id o0 -> O.o_tok o2 = O.o_tok o0 -> NoDup lv' ->
+  (forall id, In id lv' <-> (In id lv /\ id <> O.o_id o0) \/ (id = O.o_id o0 /\ O.o_wait o2 = false)) ->
+  OInv (O.mkSt (O.tset k o2 (O.tbl s)) (O.regs s)) lv'.
+Proof.
+  intros I Hg Hid Htok Hnd Hlv. pose proof (otget_in _ _ _ Hg) as Hin0.
+  destruct (oi_ent _ _ I k o0 Hin0) as [Hk Hlt].
+  constructor; cbn [O.tbl O.regs]; unfold O.tset.
+  - cbn [map fst]. constructor; [|apply nodup_map_otdel; apply (oi_keys _ _ I)].
+    intros H. apply in_map_iff in H. destruct H as ([k1 o1] & Hf & Hi). cbn in Hf. subst. apply in_otdel in Hi. destruct Hi. congruence.
+  - intros k1 o1 [H|H].
+    + inversion H; subst. rewrite Htok, Hid. auto.
+    + apply in_otdel in H. apply (oi_ent _ _ I k1 o1 (proj1 H)).
+  - cbn [map]. constructor; [|apply nodup_map_otdel; apply (oi_ids _ _ I)].
+    intros H. apply in_map_iff in H. destruct H as ([k1 o1] & Hf & Hi). unfold idof in Hf. cbn [snd] in Hf. apply in_otdel in Hi. destruct Hi as [Hi Hne].
+    assert ((k1, o1) = (k, o0)) as EE by (apply (nodup_id_unique _ (oi_ids _ _ I)); auto; unfold idof; cbn [snd]; congruence).
+    inversion EE. congruence.
+  - exact Hnd.
+  - intros id. rewrite Hlv. rewrite (oi_live _ _ I id). split.
+    + intros [[(k1 & o1 & Hin & Hi & Hw) Hne]|[-> Hw]].
+      * exists k1, o1. repeat split; auto. right. apply in_otdel. split; [exact Hin|].
+        intros ->. pose proof (nodup_fst_unique _ (oi_keys _ _ I) k o1 o0 Hin Hin0). subst. congruence.
+      * exists k, o2. repeat split; auto. left. reflexivity.
+    + intros (k1 & o1 & [H|H] & Hi & Hw).
+      * inversion H; subst. right. split; [congruence|exact Hw].
+      * apply in_otdel in H. destruct H as [Hin Hne]. left. split; [exists k1, o1; auto|].
+        intros E. subst id. assert ((k1, o1) = (k, o0)) as EE by (apply (nodup_id_unique _ (oi_ids _ _ I)); auto).
+        inversion EE. congruence.
+Qed.
+
+Lemma want_same o sq now : O.o_id (fst (O.want o sq now)) = O.o_id o /\ O.o_tok (fst (O.want o sq now)) = O.o_tok o /\
+  O.o_wait (fst (O.want o sq now)) = O.o_wait o.
+Proof. unfold O.want. destruct sq as [v|]; [|auto]. destruct (O.valid (O.o_seq o) v (O.o_last o) now); cbn; auto. Qed.
+
+Lemma oinv_step s lv e : OInv s lv -> OInv (fst (O.step O.observe_wire s e)) (live_after s lv e).
+Proof.
+  intros I. destruct e as [tok | m now | id code]; cbn [O.step live_after].
+  - (* registration *)
+    unfold O.reg. destruct tok as [|b tok'].
+    + cbn [fst]. constructor; cbn [O.tbl O.regs]; try apply I.
+      intros k o H. destruct (oi_ent _ _ I k o H). split; [assumption|rewrite app_length; lia].
+    + set (tok := b :: tok'). destruct (O.tget (O.crc64 tok) (O.tbl s)) as [o0|] eqn:Eg; cbn [fst].
+      * apply oinv_delete; [exact I|exact Eg|rewrite app_length; lia].
+      * (* fresh entry, still waiting for its first response *)
+        constructor; cbn [O.tbl O.regs]; unfold O.tset.
+        -- cbn [map fst]. constructor; [|apply nodup_map_otdel; apply (oi_keys _ _ I)].
+           intros H. apply in_map_iff in H. destruct H as ([k1 o1] & Hf & Hi). cbn in Hf. subst. apply in_otdel in Hi. destruct Hi. congruence.
+        -- intros k1 o1 [H|H].
+           ++ inversion H; subst. cbn [O.o_tok O.o_id]. rewrite app_length. cbn. split; [reflexivity|lia].
+           ++ apply in_otdel in H. destruct (oi_ent _ _ I k1 o1 (proj1 H)). split; [assumption|rewrite app_length; lia].
+        -- cbn [map]. constructor; [|apply nodup_map_otdel; apply (oi_ids _ _ I)].
+           intros H. apply in_map_iff in H. destruct H as ([k1 o1] & Hf & Hi). unfold idof in Hf. cbn [snd O.o_id] in Hf.
+           apply in_otdel in Hi. destruct (oi_ent _ _ I k1 o1 (proj1 Hi)). lia.
+        -- apply (oi_lv _ _ I).
+        -- intros id. rewrite (oi_live _ _ I id). split.
+           ++ intros (k1 & o1 & Hin & Hi & Hw). exists k1, o1. repeat split; auto. right. apply in_otdel. split; [exact Hin|].
+              intros ->. exact (otget_none _ _ Eg o1 Hin).
+           ++ intros (k1 & o1 & [H|H] & Hi & Hw); [inversion H; subst; cbn in Hw; discriminate|].
+              apply in_otdel in H. exists k1, o1. repeat split; auto. apply H.
+  - (* message *)
+    unfold O.handle_msg. destruct (O.tget (O.crc64 (O.m_tok m)) (O.tbl s)) as [o|] eqn:Eg; [|cbn [fst]; exact I].
+    pose proof (want_same o (O.observe_wire m) now) as (Wid & Wtok & Wwait).
+    destruct (O.want o (O.observe_wire m) now) as [o1 deliver] eqn:Ew. cbn [fst] in Wid, Wtok, Wwait.
+    destruct (oi_ent _ _ I _ o (otget_in _ _ _ Eg)) as [Hk _].
+    assert (Hnotin : O.o_wait o = true -> ~ In (O.o_id o) lv).
+    { intros Hw Hin. apply (oi_live _ _ I) in Hin. destruct Hin as (k1 & o2 & Hin & Hi & Hw2).
+      assert ((k1, o2) = (O.crc64 (O.m_tok m), o)) as EE by (apply (nodup_id_unique _ (oi_ids _ _ I)); auto; apply otget_in; exact Eg).
+      inversion EE; subst. congruence. }
+    destruct (O.o_wait o) eqn:Ewait.
+    + destruct (O.code_ok (O.m_code m)).
+      * destruct (O.observe_wire m) as [v|] eqn:Esq; cbn [fst].
+        -- eapply oinv_replace; [exact I|exact Eg|cbn; exact Wid|cbn; exact Wtok| |].
+           ++ constructor; [apply Hnotin; reflexivity|apply (oi_lv _ _ I)].
+           ++ intros id. cbn [In O.set_wait O.o_wait]. split.
+              ** intros [<-|H]; [right; auto|left; split; [exact H|]]. intros ->. apply (Hnotin eq_refl). exact H.
+              ** intros [[H _]|[-> _]]; auto.
+        -- rewrite Hk. pose proof (oinv_delete s lv _ o (O.regs s) I Eg (le_n _)) as HD.
+           rewrite (remove_nat_notin _ _ (Hnotin eq_refl)) in HD. exact HD.
+      * cbn [fst]. rewrite Hk. pose proof (oinv_delete s lv _ o (O.regs s) I Eg (le_n _)) as HD.
+        rewrite (remove_nat_notin _ _ (Hnotin eq_refl)) in HD. exact HD.
+    + cbn [fst]. eapply oinv_replace; [exact I|exact Eg|cbn; exact Wid|cbn; exact Wtok|apply (oi_lv _ _ I)|].
+      intros id. cbn [O.set_wait O.o_wait]. split.
+      * intros H. destruct (Nat.eq_dec id (O.o_id o)) as [->|Hne]; [right; auto|left; auto].
+      * intros [[H _]|[-> _]]; [exact H|]. apply (oi_live _ _ I). exists (O.crc64 (O.m_tok m)), o. repeat split; auto. apply otget_in. exact Eg.
+  - (* cancel *)
+    unfold O.cancel. destruct (nth_error (O.regs s) id) as [tok|]; [|cbn [fst]; exact I].
+    destruct (O.tget (O.crc64 tok) (O.tbl s)) as [o|] eqn:Eg; cbn [fst]; [|exact I].
+    apply oinv_delete; [exact I|exact Eg|lia].
+Qed.
+
+Definition orun (sl : O.st * list nat) (evs : list O.ev) : O.st * list nat :=
+  fold_left (fun '(s, lv) e => (fst (O.step O.observe_wire s e), live_after s lv e)) evs sl.
+
+Lemma oinv_run evs : forall s lv, OInv s lv -> OInv (fst (orun (s, lv) evs)) (snd (orun (s, lv) evs)).
+Proof.
+  induction evs as [|e r IH]; intros s lv I; [exact I|]. cbn [orun fold_left]. apply IH. apply oinv_step. exact I.
+Qed.
+
+Definition no_waiting (s : O.st) : Prop := forall k o, In (k, o) (O.tbl s) -> O.o_wait o = false.
+
+Lemma oinv_sizes s lv : OInv s lv -> no_waiting s -> length (O.tbl s) = length lv.
+Proof.
+  intros I Hw. rewrite <- (map_length idof (O.tbl s)).
+  apply Nat.le_antisymm; apply NoDup_incl_length.
+  - apply (oi_ids _ _ I).
+  - intros id Hin. apply in_map_iff in Hin. destruct Hin as ([k o] & Hf & Hi). apply (oi_live _ _ I).
+    exists k, o. repeat split; auto. apply (Hw k o Hi).
+  - apply (oi_lv _ _ I).
+  - intros id Hin. apply (oi_live _ _ I) in Hin. destruct Hin as (k & o & Hi & Hid & _).
+    apply in_map_iff. exists (k, o). split; auto.
+Qed.
+
+(* for every history of registrations, messages and cancellations: the ids of the table entries
+   that are past their first response are exactly the live registrations (added by a successful
+   registration, removed by cancel / failed registration / eviction); with no registration in
+   flight the table has as many entries as there are live observations *)
+Theorem observations_are_live : forall evs,
+  let '(s, lv) := orun (O.st0, []) evs in
+  OInv s lv /\ (no_waiting s -> length (O.tbl s) = length lv).
+Proof.
+  intros evs. pose proof (oinv_run evs O.st0 [] oinv0) as I. destruct (orun (O.st0, []) evs) as [s lv].
+  cbn [fst snd] in I. split; [exact I|apply oinv_sizes; exact I].
+Qed.
